@@ -4,13 +4,13 @@
     boundary) differs from G. *)
 From Verif Require Import Lib.Str Boundary.Types Boundary.Marshal.
 
-(** id, direction, (deferred, holds a closure, callee is a function value), parameter types, variadic, mode, actual arguments,
+(** id, direction, (deferred, callee is a function value), parameter types, variadic, mode, actual arguments,
     parameters observed by the implementation's callee, parameters observed by the reference *)
-Definition arg_case := (N * dir * (bool * bool * bool) * list ty * bool * cmode * list val * list val * list val)%type.
+Definition arg_case := (N * dir * (bool * bool) * list ty * bool * cmode * list val * list val * list val)%type.
 
 Definition arg_mis_y (cs : list arg_case) : list N :=
-  flat_map (fun '(id, d, (df, hd, fv), ins, va, m, sent, impl, _) =>
-    if vals_eqb (y_bind d {| cx_defer := df; cx_hold := hd; cx_value := fv |} ins va m sent) impl then [] else [id]) cs.
+  flat_map (fun '(id, d, (df, fv), ins, va, m, sent, impl, _) =>
+    if vals_eqb (y_bind d {| cx_defer := df; cx_value := fv |} ins va m sent) impl then [] else [id]) cs.
 Definition arg_mis_g (cs : list arg_case) : list N :=
   flat_map (fun '(id, _, _, ins, va, m, sent, _, ref) =>
     if vals_eqb (g_bind ins va m sent) ref then [] else [id]) cs.
